@@ -1,6 +1,8 @@
 package main
 
 import (
+	"os/exec"
+	"bytes"
 	"context"
 	"flag"
 	"fmt"
@@ -199,6 +201,9 @@ func main() {
 	case "verify", "dump", "loops":
 		cmdVerify(os.Args[1], os.Args[2:])
 	case "check":
+		if os.Getenv("VERIF_CHECK_CHILD") == "" {
+			os.Exit(superviseCheck())
+		}
 		code := cmdCheck(os.Args[2:])
 		cleanupScratch()
 		os.Exit(code)
@@ -209,6 +214,40 @@ func main() {
 	default:
 		fmt.Fprintln(os.Stderr, "unknown command", os.Args[1])
 		os.Exit(2)
+	}
+}
+
+// superviseCheck runs the check in a child process and relays its output. If the
+// child dies from a Go runtime failure (a crash of the checker itself, not a
+// verdict), nothing it printed is relayed and it is run again, at most twice:
+// a verdict is only ever reported by a run that completed.
+func superviseCheck() int {
+	self, err := os.Executable()
+	if err != nil {
+		self = os.Args[0]
+	}
+	for attempt := 1; ; attempt++ {
+		cmd := exec.Command(self, os.Args[1:]...)
+		cmd.Env = append(os.Environ(), "VERIF_CHECK_CHILD=1")
+		var out, errb bytes.Buffer
+		cmd.Stdout = &out
+		cmd.Stderr = &errb
+		cmd.Stdin = os.Stdin
+		runErr := cmd.Run()
+		code := 0
+		if ee, ok := runErr.(*exec.ExitError); ok {
+			code = ee.ExitCode()
+		} else if runErr != nil {
+			code = 2
+		}
+		crashed := code != 0 && code != 1 && (strings.Contains(errb.String(), "goroutine ") && (strings.Contains(errb.String(), "fatal error:") || strings.Contains(errb.String(), "panic:")) || code < 0)
+		if crashed && attempt < 3 {
+			fmt.Fprintf(os.Stderr, "hclverif: the checker process failed (attempt %d), running it again\n", attempt)
+			continue
+		}
+		os.Stdout.Write(out.Bytes())
+		os.Stderr.Write(errb.Bytes())
+		return code
 	}
 }
 
